@@ -204,11 +204,22 @@ def c09(tier):
     return core.finish("C09", tier, "fault_enumeration", cov, viols, inc, t0, ASSUME_SAN, min_evals=1000)
 
 
+def all_quick_specs():
+    cfgs = (list(vec.QUICK) + sets.FS_QUICK + sets.SS_SPACE_QUICK + sets.SS_HIST_QUICK + sets.HG_QUICK + sets.COST_QUICK + vec.GROWTH_QUICK +
+            vec.ALIAS_QUICK + vec.LIMITS_QUICK + vec.FAULT_QUICK + sets.SETFAULT_QUICK)
+    return [c.spec() for c in cfgs]
+
+
 def setup():
-    specs = [c.spec() for c in vec.QUICK]
+    t0 = time.time()
+    specs = all_quick_specs()
+    for extra in EXTRA_SETUP:
+        specs += extra()
     core.build_many(specs)
-    print("setup: %d binaries ready" % len(specs))
+    print("setup: %d binaries ready in %.0fs" % (len(specs), time.time() - t0))
     return 0
 
+
+EXTRA_SETUP = []
 
 CHECKS = {"C01": c01, "C02": c02, "C05": c05, "C06": c06, "C07": c07, "C03": c03, "C04": c04, "C11": c11, "C12": c12, "C19": c19, "C18": c18, "C10": c10, "C08": c08, "C09": c09}
